@@ -20,7 +20,7 @@ from checks import common
 PROPERTY = "C11"
 LEVEL = "exploration"
 MODES = ["O0"]
-TIERS = {"quick": {"runs": 3000, "wall": 55}, "thorough": {"runs": 50000, "wall": 1500}}
+TIERS = {"quick": {"runs": 2000, "wall": 55}, "thorough": {"runs": 50000, "wall": 1500}}
 RULE = ("plan = seeded tree (top-level PELs, archive/ and other subdirectories with PELs of the same ids, junk, "
         "names embedding an id) + history of 3..10 invocations drawn from every CLI mode, each with a seeded "
         "readdir order; distinct_nontrivial counts distinct abstract traces (sequence of (mode, effect class)) "
@@ -29,7 +29,7 @@ COMPONENTS = {"real": ["pel.peltool.peltool.main() in-process"],
               "stub": ["directory enumeration order (SimFS)", "stdout capture"]}
 ASSUMPTIONS = ["which of several files whose names contain the id --delete removes is not constrained (readdir dependent)",
                "--json without selection: which PELs get an output is not judged (C07); only names/locations of created files are"]
-PROBES = ["delete_hit", "delete_miss", "delete_all", "json_same_dir", "json_out_dir", "nested_same_id", "id_inner_substring",
+PROBES = ["dir_name_contains_id", "json_fault_fired:error", "json_fault_fired:crash_after", "delete_hit", "delete_miss", "delete_all", "json_same_dir", "json_out_dir", "nested_same_id", "id_inner_substring",
           "delete_multi_match"]
 
 READ_MODES = ["-l", "-a", "-n", "-i", "--bmc-id", "--plid", "--src", "--src-exclude", "-lx", "-ax", "-f", "-fx"]
@@ -77,11 +77,31 @@ def gen_plan(rng, tier, run):
             op["arg"] = rng.choice(cands) if cands else "D/none"
         if m in ("-j", "-jo") and rng.random() < 0.3:
             op["ext"] = ".pel"
+        if m in ("-j", "-jo") and rng.random() < 0.35:
+            ev = rng.choice(["open_out", "write", "write", "close", "close", "remove", "replace", "rename"])
+            op["faults"] = [{"on": ev, "nth": rng.choice([0, 0, 1, 2, 57, 400]) if ev == "write" else rng.choice([0, 0, 1]),
+                             "kind": rng.choice(["error", "error", "crash_before", "crash_after", "short"]),
+                             "errno": rng.choice(["ENOSPC", "EIO"]), "keep": rng.choice([0, 10, 300])}]
+            op["bufsize"] = rng.choice([0, 64, None])
         ops.append(op)
-    return {"tree": tree, "ops": ops}
+    # the PEL directory's own name may contain an entry id (e.g. cases/<EID>/)
+    dname = "D"
+    c = rng.random()
+    if c < 0.25:
+        known = eids + [pelgen.gen_id(rng)]
+        dname = rng.choice(["cases-%08X", "%08X", "logs.%08X.d"]) % rng.choice(known)
+        for o in ops:
+            if o["mode"] in ("-d", "-i") and rng.random() < 0.6:
+                o["arg"] = dname[-10:-2] if dname.endswith(".d") else dname[-8:]
+    return {"tree": tree, "ops": ops, "dname": dname, "fresh": rng.random() < 0.4}
 
 
-def argv_of(op):
+def argv_of(op, dname="D"):
+    a = _argv_of(op)
+    return [x.replace("@/D", "@/" + dname, 1) if x == "@/D" or x.startswith("@/D/") else x for x in a]
+
+
+def _argv_of(op):
     m = op["mode"]
     a = ["-p", "@/D"]
     if m in ("-l", "-a", "-n", "-D"):
@@ -129,23 +149,36 @@ def execute(plan):
     trace = []
     events = 0
     h = hashlib.sha256()
+    dname = plan.get("dname", "D")
+
+    def real(path):
+        return dname + path[1:] if path == "D" or path.startswith("D/") else path
+
+    def canon(snap):
+        # snapshots are reported with the directory called D again
+        return {("D" + p[len(dname):] if p == dname or p.startswith(dname + "/") else p): v for p, v in snap.items()}
     with World() as w:
+        w.fresh_per_run = bool(plan.get("fresh"))
+        bump("process_model:fresh" if w.fresh_per_run else "process_model:shared")
         for t in plan["tree"]:
             if t.get("dir"):
-                w.mkdir(t["path"])
+                w.mkdir(real(t["path"]))
             elif "recipe" in t:
-                w.put(t["path"], pelgen.build(t["recipe"]))
+                w.put(real(t["path"]), pelgen.build(t["recipe"]))
             else:
-                w.put(t["path"], bytes.fromhex(t["raw_hex"]))
+                w.put(real(t["path"]), bytes.fromhex(t["raw_hex"]))
+        w.mkdir(dname)
         json_outputs = set()  # files created by earlier --json invocations
         created_eid = {}     # path -> eid for PEL files (by construction)
         for p, e in eids_by_path.items():
             created_eid[p] = e
         for op in plan["ops"]:
-            before = w.snapshot()
-            argv = argv_of(op)
-            r = w.run(argv, order=op["order"])
-            after = w.snapshot()
+            before = canon(w.snapshot())
+            argv = argv_of(op, dname)
+            r = w.run(argv, order=op["order"], faults=op.get("faults"), file_bufsize=op.get("bufsize"))
+            after = canon(w.snapshot())
+            if r.fired:
+                bump("json_fault_fired:" + r.fired[0]["kind"])
             events += len(r.events)
             h.update(r.digest.encode())
             h.update(json.dumps(sorted(after.items())).encode())
@@ -221,14 +254,14 @@ def execute(plan):
                     if not ok:
                         vio.append(V("json-bad-output-name", "--json created %s (output dir %s, inputs %s); %s" % (p, outdir, sorted(top_inputs), ctx)))
                 bump("json_same_dir" if m == "-j" else "json_out_dir")
-                trace.append("%s:%d" % (m, min(3, len(added))))
+                trace.append("%s:%d%s" % (m, min(3, len(added)), ("!" + r.fired[0]["kind"] + "@" + r.fired[0]["event"]) if r.fired else ""))
     seen, uniq = set(), []
     for v in vio:
         if v["key"] not in seen:
             seen.add(v["key"])
             uniq.append(v)
     nontrivial = any(not t.endswith(":ro") for t in trace)
-    sample = {"tree": [t["path"] for t in plan["tree"]], "history": [argv_of(o) for o in plan["ops"]], "trace": trace}
+    sample = {"tree": [t["path"] for t in plan["tree"]], "pel_dir_name": dname, "history": [argv_of(o, dname) for o in plan["ops"]], "trace": trace}
     return {"violations": uniq, "stats": stats, "traces": ["|".join(trace)] if nontrivial else [], "events": events,
             "evals": len(plan["ops"]), "digest": h.hexdigest(), "sample": sample}
 
